@@ -76,8 +76,10 @@ func genRelayCase(r *common.Rng, idx int) RelayCase {
 			c.Ops = append(c.Ops, RelayOp{Op: "reply", T: r.Intn(c.Targets), J: r.Intn(8)})
 		case x < 85:
 			c.Ops = append(c.Ops, RelayOp{Op: "garbage", C: r.Intn(c.Clients), G: r.Intn(6), Fresh: r.Chance(1, 3)})
-		case x < 95:
+		case x < 92:
 			c.Ops = append(c.Ops, RelayOp{Op: "move", C: r.Intn(c.Clients)})
+		case x < 96:
+			c.Ops = append(c.Ops, RelayOp{Op: "stall", C: r.Intn(c.Clients), T: r.Intn(c.Targets), J: r.Intn(8)})
 		default:
 			c.Ops = append(c.Ops, RelayOp{Op: "burst", C: r.Intn(c.Clients)})
 		}
@@ -228,13 +230,16 @@ type relayProc struct {
 
 var testPSK = []byte("0123456789abcdef")
 
+// relayCap is the configured sendChannelCapacity (the smallest value the configuration accepts).
+const relayCap = 64
+
 func startRelay(c RelayCase, tunnel conn.Addr, upstream netip.AddrPort) (*relayProc, error) {
 	sc := service.ServerConfig{
 		Name: "s",
 		MTU:  1500,
 		UDPListeners: []service.UDPListenerConfig{{
 			ListenerConfig: service.ListenerConfig{Network: "udp4", Address: "127.0.0.1:0"},
-			UDPPerfConfig:  service.UDPPerfConfig{BatchMode: c.Batch},
+			UDPPerfConfig:  service.UDPPerfConfig{BatchMode: c.Batch, SendChannelCapacity: relayCap},
 			NATTimeout:     jsoncfg.Duration(5 * time.Minute),
 		}},
 	}
@@ -344,6 +349,8 @@ type relayRun struct {
 	sidClient []int // observed session -> owning client
 	sidSock   []int // observed session -> socket its latest accepted datagram came from
 	sockOwner map[int]int
+	keyToSid  map[int]int
+	stallN    int
 	keySid    map[int]bool
 	modelSids int
 	twoWay    map[int]bool
@@ -369,6 +376,7 @@ func (x *relayRun) setup() error {
 	x.plTarget, x.plClient, x.plSockets = map[int]int{}, map[int]int{}, map[int][]int{}
 	x.portSid, x.keySid, x.twoWay = map[uint16]int{}, map[int]bool{}, map[int]bool{}
 	x.sockOwner = map[int]int{}
+	x.keyToSid = map[int]int{}
 	x.nextPl = 1000
 	// targets: same port on 127.0.0.(20+i), so that a datagram sent to another session's resolved
 	// address still lands on a monitored socket
@@ -553,7 +561,7 @@ func (x *relayRun) cfgLine(shared bool) string {
 		}
 		return "0"
 	}
-	return fmt.Sprintf("cfg 1024 %s %s %s", b(x.byAddr()), b(x.c.Server != "direct"), b(shared))
+	return fmt.Sprintf("cfg %d %s %s %s", relayCap, b(x.byAddr()), b(x.c.Server != "direct"), b(shared))
 }
 
 // observeAtTargets waits for one datagram at a target / upstream socket and classifies it.
@@ -630,6 +638,7 @@ func (x *relayRun) opSend(o RelayOp) {
 		verdict = "new"
 	}
 	x.sidSock[sid] = hc.sock
+	x.keyToSid[key] = sid
 	x.impl = append(x.impl, fmt.Sprintf("%s %d 1", verdict, sid))
 	if verdict == "new" {
 		x.script = append(x.script, fmt.Sprintf("initok %d", sid))
@@ -660,6 +669,9 @@ func (x *relayRun) opReply(o RelayOp) {
 		return
 	}
 	sid := o.J % len(x.sidPort)
+	if x.sidPort[sid] == 0 {
+		return
+	}
 	x.nextPl++
 	pl := x.nextPl
 	owner := x.sidClient[sid]
@@ -841,6 +853,136 @@ func (x *relayRun) opBurst(o RelayOp) {
 			return
 		}
 		time.Sleep(10 * time.Millisecond)
+	}
+}
+
+// opStall: the session's resolution is held while the client keeps sending: the uplink is inside
+// PackInPlace, the send channel fills up to its capacity and the rest is dropped; after the release
+// exactly the packet in flight plus the queued ones leave, in order, to the resolved address.
+func (x *relayRun) opStall(o RelayOp) {
+	if x.c.Client != "direct" || x.c.Server == "direct" || len(x.clients) < 2 {
+		return
+	}
+	hc := x.clients[o.C]
+	x.stallN++
+	name := fmt.Sprintf("s%d.c11.test", x.stallN)
+	dom := 100 + x.stallN
+	x.dns.set(name, x.taddrs[o.T])
+	x.dns.setHoldAll(true)
+	defer x.dns.setHoldAll(false)
+	ta := tAddr{name: name, port: x.tport}
+	key := x.clientKey(o.C)
+	sid, known := x.keyToSid[key]
+	if !known {
+		// the relay will create the session at the first datagram; its NAT port is learnt when datagrams arrive
+		sid = len(x.sidPort)
+		x.sidPort = append(x.sidPort, 0)
+		x.sidClient = append(x.sidClient, o.C)
+		x.sidSock = append(x.sidSock, hc.sock)
+		x.keyToSid[key] = sid
+	}
+	extra := 1 + o.J%5
+	var pls []int
+	sendOne := func() bool {
+		x.nextPl++
+		pl := x.nextPl
+		pls = append(pls, pl)
+		x.plTarget[pl], x.plClient[pl] = o.T, o.C
+		wire, err := x.encode(hc, ta, payloadBytes(pl, x.r))
+		if err != nil {
+			x.fail("harness-encode", err.Error())
+			return false
+		}
+		hc.lastPkt = wire
+		x.script = append(x.script, fmt.Sprintf("recv %d %d dom %d %d %d", key, hc.sock, dom, x.tport, pl))
+		x.impl = append(x.impl, "*")
+		x.cg.get(hc.sock).WriteToUDPAddrPort(wire, x.relay.addr)
+		return true
+	}
+	if !sendOne() {
+		return
+	}
+	if !known {
+		x.script = append(x.script, fmt.Sprintf("initok %d", sid))
+		x.impl = append(x.impl, "*")
+	}
+	x.script = append(x.script, fmt.Sprintf("pack %d -", sid))
+	select {
+	case n := <-x.dns.arrived:
+		if n != name {
+			x.fail("harness-dns", "unexpected query "+n)
+			x.dns.releaseAll()
+			return
+		}
+		x.impl = append(x.impl, fmt.Sprintf("blocked %d", dom))
+	case <-time.After(waitDatagram):
+		x.impl = append(x.impl, "no-resolution")
+		x.fail("stall-no-resolution", fmt.Sprintf("no resolution of %s was started within %s", name, waitDatagram))
+		return
+	}
+	for i := 0; i < relayCap+extra; i++ {
+		if !sendOne() {
+			break
+		}
+		if i%16 == 15 {
+			time.Sleep(300 * time.Microsecond)
+		}
+	}
+	// barrier through the same receive loop: another client, IP target
+	other := (o.C + 1) % len(x.clients)
+	x.opSend(RelayOp{Op: "send", C: other, T: o.T})
+	ipn := ipNat(x.taddrs[o.T])
+	x.script = append(x.script, fmt.Sprintf("resolved %d %d", sid, ipn), fmt.Sprintf("storeip %d", sid), fmt.Sprintf("readsend %d", sid))
+	x.impl = append(x.impl, "ok", "ok")
+	x.dns.release(name, dnsAnswer{ip: x.taddrs[o.T]})
+	// arrivals, in order
+	var got []string
+	want := map[int]bool{}
+	for _, p := range pls {
+		want[p] = true
+	}
+	var relayPort uint16
+	quiet := 300 * time.Millisecond
+	for len(got) < len(pls) {
+		wait := quiet
+		if len(got) == 0 {
+			wait = waitDatagram
+		}
+		var d dgram
+		select {
+		case d = <-x.tg.ch:
+		case <-time.After(wait):
+			wait = 0
+		}
+		if wait == 0 {
+			break
+		}
+		pl := payloadID(d.data)
+		if !want[pl] || d.sock != o.T {
+			x.fail("wrong-destination", fmt.Sprintf("after a held resolution: payload %d (target %d) arrived at target %d", pl, x.plTarget[pl], d.sock))
+		}
+		relayPort = d.from.Port()
+		got = append(got, fmt.Sprintf("sent %d %d %d", ipNat(x.taddrs[d.sock]), x.tport, pl))
+	}
+	for i := range pls {
+		if i > 0 {
+			x.script = append(x.script, fmt.Sprintf("pack %d -", sid))
+		}
+		if i < len(got) {
+			x.impl = append(x.impl, got[i])
+		} else {
+			x.impl = append(x.impl, "noop")
+		}
+	}
+	if len(got) > 0 {
+		if old, seen := x.portSid[relayPort]; seen != known || (seen && old != sid) {
+			x.fail("session-keying", fmt.Sprintf("stalled session: relay port %d seen-before=%v, expected known=%v (session %d)", relayPort, seen, known, sid))
+		}
+		if !known {
+			x.portSid[relayPort] = sid
+			x.sidPort[sid] = relayPort
+		}
+		x.sidSock[sid] = hc.sock
 	}
 }
 
@@ -1045,6 +1187,8 @@ func runRelayCase(c RelayCase, dns *scriptDNS, shared bool) (res relayResult, er
 			x.opMove(o)
 		case "burst":
 			x.opBurst(o)
+		case "stall":
+			x.opStall(o)
 		}
 	}
 	// barrier + quiescence: nothing unsolicited anywhere
@@ -1079,13 +1223,27 @@ func evalRelay(cases []RelayCase, dns *scriptDNS, shared bool, o *common.Options
 			if err != nil {
 				return err
 			}
-			if strings.Join(model, "\n") != strings.Join(res.impl, "\n") {
+			if !sameLines(model, res.impl) {
 				rep.Diverge(common.Divergence{Engine: "udprelay", Case: c, Impl: res.impl, Model: model, Note: strings.Join(res.script, " ; ")})
 			}
 			rep.TracesValidated++
 		}
 	}
 	return nil
+}
+
+// sameLines compares model output with the observation; "*" marks a step the harness cannot observe
+// (what the receive loop did with a datagram while the uplink was stalled).
+func sameLines(model, impl []string) bool {
+	if len(model) != len(impl) {
+		return false
+	}
+	for i := range model {
+		if impl[i] != "*" && impl[i] != model[i] {
+			return false
+		}
+	}
+	return true
 }
 
 func relayEngine(r *common.Rng, dns *scriptDNS, shared bool, o *common.Options, rep *common.Report) error {
